@@ -62,6 +62,40 @@ theorem reachSet_sound (R : Table (Mag Rat)) (a : UId) : ∀ (n : Nat) (x : UId)
 theorem reaches_of_mem {R : Table (Mag Rat)} {a t : UId} {n : Nat} (h : t ∈ reachSet R a n) : Reaches R t a :=
   reachSet_sound R a n t h t Reaches.here
 
+/-- iterate `step` until the set stops growing (at most `fuel` times) -/
+def fixFrom (step : List UId → List UId) : Nat → List UId → List UId
+  | 0, l => l
+  | fuel + 1, l => let l' := step l; if l'.length == l.length then l else fixFrom step fuel l'
+
+theorem fixFrom_iter (step : List UId → List UId) : ∀ (fuel : Nat) (l : List UId),
+    ∃ n, fixFrom step fuel l = Nat.iterate step n l := by
+  intro fuel
+  induction fuel with
+  | zero => intro l; exact ⟨0, rfl⟩
+  | succ fuel ih =>
+    intro l
+    unfold fixFrom
+    simp only
+    split
+    · exact ⟨0, rfl⟩
+    · obtain ⟨n, hn⟩ := ih (step l)
+      exact ⟨n + 1, by rw [hn]; rfl⟩
+
+theorem reachSet_iter (R : Table (Mag Rat)) (a : UId) : ∀ n, Nat.iterate (expand R) n [a] = reachSet R a n := by
+  intro n
+  induction n with
+  | zero => rfl
+  | succ n ih => rw [Function.iterate_succ_apply', ih]; rfl
+
+/-- forward closure of `a`: everything found is reachable from `a` -/
+def reachAll (R : Table (Mag Rat)) (a : UId) : List UId := fixFrom (expand R) R.length [a]
+
+theorem reaches_of_mem_all {R : Table (Mag Rat)} {a t : UId} (h : t ∈ reachAll R a) : Reaches R t a := by
+  unfold reachAll at h
+  obtain ⟨n, hn⟩ := fixFrom_iter (expand R) R.length [a]
+  rw [hn, reachSet_iter] at h
+  exact reaches_of_mem h
+
 theorem reaches_trans {R : Table (Mag Rat)} {b x a : UId} (h1 : Reaches R b x) (h2 : Reaches R x a) : Reaches R b a := by
   induction h2 with
   | here => exact h1
@@ -77,7 +111,6 @@ def fundNodes : List UId :=
   (shipped.ratios.filter (fun r => !r.2.isEmpty)).map (·.1) |>.filter (fun u =>
     decide (u < init.units.length) && fundOk (init.dimOfUnit u))
 
-def depth : Nat := 16
 
 /-- the units with an edge INTO `x` -/
 def preds (R : Table (Mag Rat)) (x : UId) : List UId :=
@@ -110,13 +143,28 @@ theorem backSet_sound (R : Table (Mag Rat)) (r : UId) : ∀ (n : Nat) (x : UId),
       subst this
       exact Reaches.step (m := e.2) he (ih _ hy)
 
+theorem backSet_iter (R : Table (Mag Rat)) (r : UId) : ∀ n, Nat.iterate (expandBack R) n [r] = backSet R r n := by
+  intro n
+  induction n with
+  | zero => rfl
+  | succ n ih => rw [Function.iterate_succ_apply', ih]; rfl
+
+/-- backward closure of `r`: everything found reaches `r` -/
+def backAll (R : Table (Mag Rat)) (r : UId) : List UId := fixFrom (expandBack R) R.length [r]
+
+theorem back_sound_all {R : Table (Mag Rat)} {r x : UId} (h : x ∈ backAll R r) : Reaches R r x := by
+  unfold backAll at h
+  obtain ⟨n, hn⟩ := fixFrom_iter (expandBack R) R.length [r]
+  rw [hn, backSet_iter] at h
+  exact backSet_sound R r n x h
+
 /-- the first fundamental node of each dimension -/
 def roots : List UId :=
   fundNodes.filter (fun u => fundNodes.find? (fun r => init.dimOfUnit r == init.dimOfUnit u) == some u)
 
 /-- every fundamental node is reached from the root of its dimension and reaches it -/
 def fundConnected : Bool :=
-  let table := roots.map (fun r => (r, reachSet shipped.ratios r depth, backSet shipped.ratios r depth))
+  let table := roots.map (fun r => (r, reachAll shipped.ratios r, backAll shipped.ratios r))
   fundNodes.all (fun u => table.any (fun e =>
     (init.dimOfUnit e.1 == init.dimOfUnit u) && e.2.1.contains u && e.2.2.contains u))
 
@@ -144,7 +192,7 @@ theorem fund_reaches {u v : UId} (hu : u ∈ fundNodes) (hv : v ∈ fundNodes)
     have h1' : fundNodes.find? (fun r => init.dimOfUnit r == init.dimOfUnit r2) = some r1 := e ▸ h1
     exact Option.some.inj (h1'.symm.trans h2)
   subst hr
-  exact reaches_trans (reaches_of_mem hf2) (back_sound hb1)
+  exact reaches_trans (reaches_of_mem_all hf2) (back_sound_all hb1)
 
 /-- **Connected ⇒ converts, on the shipped definitions**: any two units of one fundamental dimension that
     occur in the regenerated graph (90 units in 6 dimensions on the pinned tree), with any prefixes, convert into
